@@ -1,6 +1,6 @@
 (* C08 -- the marginal transformation returns p(y) = integral of p(y|x) p(x) dx. *)
 From mathcomp Require Import all_ssreflect all_algebra.
-From GT Require Import Tensor DetExec LogDom Obj Factor Measure Pdf Cond EvalLemmas Spec C01_proofs PdfLemmas C04_proofs C05_proofs C06_proofs C0809_proofs C1013_proofs.
+From GT Require Import Tensor DetExec LogDom Obj Factor Measure Pdf Cond EvalLemmas Spec C01_proofs PdfLemmas C04_proofs C05_proofs C06_proofs C0809_proofs C1013_proofs C12_proofs C07_proofs Extra_proofs.
 Import GRing.Theory Num.Theory.
 Local Open Scope ring_scope.
 
@@ -23,7 +23,25 @@ Theorem C08_is_marginal_of_joint (c : cond LS) (p : measure LS) k (y : vec F) :
   pdf_ok p -> cond_ok c -> cDx c = uD p -> marg_pos c p -> (k < cR c * uR p)%N ->
   ueval (get_marginal (iota (cDx c) (cDy c)) (affine_joint c p)) k y = ueval (affine_marginal c p) k y.
 Proof. exact: marginal_of_joint. Qed.
+
+(* p(y) is the Gaussian integral (specification GI) over x of a joint density over (x, y), x first: the marginal of
+   the LAST db coordinates of any density equals lngint over the first da coordinates.  With C08_is_marginal_of_joint
+   and the chain rule C07 this is "p(y) = integral of p(y|x) p(x) dx". *)
+Theorem C08_marginal_is_integral_over_x da db (p : measure LS) r (xb : vec F) :
+  pdf_ok p -> uD p = (da + db)%N -> (r < uR p)%N ->
+  0 < \det (mxf da da (msub2 (iota 0 da) (iota 0 da) (uLam p r))) ->
+  0 < \det (mxf db db (msub2 (iota da db) (iota da db) (getS p r))) ->
+  let Laa := mxf da da (msub2 (iota 0 da) (iota 0 da) (uLam p r)) in
+  let Lab := mxf da db (msub2 (iota 0 da) (iota da db) (uLam p r)) in
+  let Lbb := mxf db db (msub2 (iota da db) (iota da db) (uLam p r)) in
+  let nua := cvf da (vsel (iota 0 da) (unu p r)) in
+  let nub := cvf db (vsel (iota da db) (unu p r)) in
+  let b := cvf db xb in
+  lngint Laa (nua - Lab *m b) (ulb p r + emb LS (- half F * sc (b^T *m Lbb *m b) + sc (b^T *m nub)))
+  = lnN LS (cvf db (vsel (iota da db) (getmu p r))) (mxf db db (msub2 (iota da db) (iota da db) (getS p r))) b.
+Proof. exact: marginal_is_integral_last. Qed.
 End C08.
+Print Assumptions C08_marginal_is_integral_over_x.
 Print Assumptions C08_marginal_transformation_law.
 Print Assumptions C08_covariance.
 Print Assumptions C08_is_marginal_of_joint.
